@@ -11,7 +11,7 @@
    Everything else is closed. *)
 From Coq Require Import Permutation Sorting.Sorted.
 From RV Require Import Base.Prelude Name.NameModel Name.NameSpec Wire.WireTypes Zone.ZoneModel Zone.ZoneFlat
-     Zone.ZoneProofs Config.ConfigModel Config.ConfigProofs.
+     Zone.ZoneProofs Zone.ZoneMergeProofs Config.ConfigModel Config.ConfigProofs Config.ConfigMerge.
 
 (* None iff some directory cannot be listed or some file of the effective sequence cannot be read or
    parsed in its role.  ([config_hosts_wf]: the names in the hosts files are well-formed DomainName
@@ -165,6 +165,25 @@ Theorem C12_zone_is_chain_of_files_partial : forall zone_wf : zone -> Prop,
       end.
 Proof. exact load_zone_repr. Qed.
 Print Assumptions C12_zone_is_chain_of_files_partial.
+
+(* The premise above is discharged with Zone/ZoneMergeProofs.v (which landed after this file was
+   first written): the invariant is "unique child labels" ([wf_tree]); zones built by insertion --
+   i.e. every zone a zone file or a hosts file yields -- satisfy it ([zone_build_wf_tree]). *)
+Theorem C12_zone_is_chain_of_files :
+  forall a f zs (flat_of : zone -> fzone), config_hosts_wf a f -> load a f = Some zs ->
+  exists hz, hosts_to_zone (loaded_hosts a f) = Ok hz /\ z_apex hz = root_domain /\ z_soa hz = None /\
+    forall k, Forall (fun z => wf_tree (z_records z) /\ zrepr z (flat_of z)) (for_apex k (zone_inputs a f hz)) ->
+      match alookup dname_eqb k zs, flat_chain (map (ffile_of flat_of) (for_apex k (zone_inputs a f hz))) with
+      | Some m, Some fm => z_apex m = k /\ zrepr m fm
+      | None, None => for_apex k (zone_inputs a f hz) = []
+      | _, _ => False
+      end.
+Proof. exact load_zone_repr_closed. Qed.
+Print Assumptions C12_zone_is_chain_of_files.
+
+Theorem C12_built_zones_are_wf : forall apex s ops z, zone_build apex s ops = Ok z -> wf_tree (z_records z).
+Proof. exact zone_build_wf_tree. Qed.
+Print Assumptions C12_built_zones_are_wf.
 
 (* with the flat specification of C02: a zone that represents a flat zone fz answers every question
    under its apex as RFC 1034 4.3.2 / RFC 4592 do on fz (up to the order of type groups in an ANY
